@@ -75,6 +75,8 @@ static void armSanitizer() { __sanitizer_set_death_callback(asanDeath); }
 static void armSanitizer() {}
 #endif
 
+int runFidelityGate(const std::string& buildDir, bool verbose);
+
 static std::vector<Scenario>& reg()
 {
 	static std::vector<Scenario> v;
@@ -113,6 +115,7 @@ struct Opt
 	bool noShrink = false;
 	long oneJob = -1;
 	bool dumpHashes = false;
+	bool fidelity = false, verbose = false;
 } opt;
 
 // ------------------------------------------------------------------ run derivation
@@ -966,6 +969,8 @@ int main(int argc, char** argv)
 		else if (a == "--no-shrink") opt.noShrink = true;
 		else if (a == "--job") opt.oneJob = atol(next().c_str());
 		else if (a == "--dump-hashes") opt.dumpHashes = true;
+		else if (a == "--fidelity") opt.fidelity = true;
+		else if (a == "--verbose") opt.verbose = true;
 		else
 		{
 			fprintf(stderr, "unknown argument %s\n", a.c_str());
@@ -978,6 +983,12 @@ int main(int argc, char** argv)
 		opt.workers = 1;
 	if (opt.workers > 64)
 		opt.workers = 64;
+	if (opt.fidelity)
+	{
+		mkdir(opt.buildDir.c_str(), 0777);
+		mkdir((opt.buildDir + "/tmp").c_str(), 0777);
+		return runFidelityGate(opt.buildDir, opt.verbose);
+	}
 	if (opt.list)
 	{
 		for (auto& s : scenarios())
